@@ -723,8 +723,8 @@ pub fn check_c12(tier: &str) -> i32 {
         "all event sequences up to depth D over {submit with timeout 1, 7 or 1000 ms, reply ok / exception / bad / stale, partial reply, rest of the reply, advance to the deadline, advance to one ms before it, advance 1 ms, connect ok} with max_response_timeouts in {None, 1, 2, 3} on the production TcpChannelTask under the paused clock; completion instants (virtual ms), the connection drop after exactly N consecutive timeouts and the absence of a drop otherwise are compared with the reference client model",
     );
     let thorough = rep.thorough();
-    let depth = if thorough { 9 } else { 6 };
-    rep.bounds = json!({"depth_after_prefix": depth, "timeouts_ms": [1, 7, 1000], "N": ["none", 1, 2, 3], "max_requests": 6});
+    let depth = if thorough { 8 } else { 6 };
+    rep.bounds = json!({"depth_after_prefix": depth, "max_deviations": 3, "timeouts_ms": [1, 7, 1000], "N": ["none", 1, 2, 3], "max_requests": 6});
     // machinery self-test: the paused clock fires a timer exactly at its deadline, not before
     {
         let cfg = SmCfg { cap: 16, max_timeouts: None, retry_min: 3, retry_max: 12, handles: 1, decode: (0, 0, 0) };
@@ -747,7 +747,7 @@ pub fn check_c12(tier: &str) -> i32 {
     };
     for n in [None, Some(1), Some(2), Some(3)] {
         let cfg = SmCfg { cap: 16, max_timeouts: n, retry_min: 3, retry_max: 12, handles: 1, decode: (0, 0, 0) };
-        let x = Explore { prop: "C12", cfg: &cfg, depth: depth + 2, max_dev: if thorough { 4 } else { 3 }, max_requests: 0, aspects: "TCLW", filter: &filter, cost: &cost, extra: &c12_extra };
+        let x = Explore { prop: "C12", cfg: &cfg, depth: depth + 2, max_dev: 3, max_requests: 0, aspects: "TCLW", filter: &filter, cost: &cost, extra: &c12_extra };
         let st = explore(&x, &[connected_prefix()]);
         rep.phase(&format!("N={n:?}"), st, json!({"cfg": cfg}));
     }
